@@ -126,6 +126,60 @@ func clCollectorGuard(c *Ctx) {
 				b, ok := strip(v).(*ssa.BinOp)
 				return ok && snMinus1(v) && sameSnap(b.X)
 			}, isLast)
+		// the frontier must be re-read (or advanced) in every iteration
+		if guard {
+			fresh := true
+			head := loopHeaderOf(s.Block())
+			for _, f := range fi.FactsAt(s) {
+				cmp, ok := cmpOf(f.V, f.Val)
+				if !ok || cmp.Op != token.EQL {
+					continue
+				}
+				for _, side := range []ssa.Value{cmp.X, cmp.Y} {
+					if !isLastPlus1(side) && !isLast(side) {
+						continue
+					}
+					// find the read of lastGCSn feeding this side
+					var reads []ssa.Instruction
+					var walk func(v ssa.Value, d int)
+					walk = func(v ssa.Value, d int) {
+						v = strip(v)
+						if d > 4 {
+							return
+						}
+						switch x := v.(type) {
+						case *ssa.BinOp:
+							walk(x.X, d+1)
+							walk(x.Y, d+1)
+						case *ssa.Call:
+							reads = append(reads, x)
+						case *ssa.Phi:
+							// a tracked copy: fine if it sits in the loop header and is updated from the released sn
+							if head != nil && x.Block() == head {
+								return
+							}
+							reads = append(reads, x)
+						}
+					}
+					walk(side, 0)
+					for _, r := range reads {
+						if head != nil {
+							inLoop := false
+							for _, pr := range head.Preds {
+								if (head.Dominates(pr) || head == pr) && inNaturalLoop(head, pr, r.Block()) {
+									inLoop = true
+								}
+							}
+							if !inLoop {
+								fresh = false
+							}
+						}
+					}
+				}
+			}
+			c.Check(fresh, collect, s, "collection frontier (lastGCSn+1) is re-evaluated for every retired snapshot",
+				"the frontier is computed once before the loop and never advanced: a pass releases one snapshot and stops at the next although it is the new frontier, so a backlog of closed snapshots is never drained (garbage stranded)")
+		}
 		c.Check(guard, collect, s, "send guarded by sn == lastGCSn+1",
 			"the garbage list of a retired snapshot is released although it is not the successor of the last collected snapshot: an older snapshot that is still open can lose items it sees")
 		// lastGCSn := sn on the same path
@@ -576,6 +630,27 @@ func clDeleteNodeWinner(c *Ctx) {
 		n++
 		c.Check(won(in), fn, in, cnt.in(fn, what+" only by the winner"),
 			"a side effect visible to other goroutines ("+what+") is executed by a writer that has not won the delete of this node (lost deadSn CAS / failed physical delete): garbage lists are cut, or the node is queued for freeing twice")
+	}
+	// a node leaves DeleteNode towards the reclaimer (session flush) or a garbage
+	// list only with its own link cleared: free/GC workers follow GetLink
+	for _, in := range fi.Instrs {
+		var obj ssa.Value
+		what := ""
+		if p.IsCall(in, flush) {
+			obj, what = callOf(in).Args[1], "node handed to the barrier session has a cleared link"
+		} else if st, ok := in.(*ssa.Store); ok {
+			if f, _ := addrField(st.Addr); f == fTail {
+				obj, what = st.Val, "node appended to the garbage list has a cleared link"
+			}
+		}
+		if obj == nil || strip(obj) != ssa.Value(x) {
+			continue
+		}
+		cleared := fi.MustPrecede(in, func(y ssa.Instruction) bool {
+			return p.IsCall(y, setLink) && strip(callOf(y).Args[0]) == ssa.Value(x) && isNilConst(callOf(y).Args[1])
+		})
+		c.Check(cleared, fn, in, cnt.in(fn, what),
+			"the free worker / collection worker walks GetLink() from the node it is given: a node that still carries a link (e.g. from a user NodeList, or an older list) drags live nodes into the free list (double free / free of linked nodes)")
 	}
 	// the CAS: 0 -> current epoch
 	for _, in := range fi.Instrs {
